@@ -165,13 +165,9 @@ theorem returns_when_exhausted {c : Cfg} (hfx : c.fx = Fix.all) {conc0 : Nat} {s
       · simp [hsf] at h
   exact ⟨hret, exactly_once_without_stop hfx hr hret hns⟩
 
-/-- **Errors surface.**  If a task or the source raised, every complete run (that is not paused on
-purpose) has ended with `process()` raising — it neither hangs nor returns normally; and
-`process()` raises only if something failed. -/
-theorem error_surfaces {c : Cfg} (hfx : c.fx = Fix.all) {conc0 : Nat} {s : St}
-    (hr : Reach c conc0 s) (hq : quiescent s = true) (hp : ¬ paused s)
+theorem failure_raised_if_done {c : Cfg} (hfx : c.fx = Fix.all) {conc0 : Nat} {s : St}
+    (hr : Reach c conc0 s) (hd : mainDone s = true)
     (hf : 0 < s.failedItems ∨ s.srcFailed = true) : s.main = .raised := by
-  have hd := no_hang hfx hr hq hp
   obtain ⟨hn, _, hR⟩ := inv_reach hfx hr
   cases hm : s.main <;> simp [mainDone, hm] at hd
   · exfalso
@@ -182,6 +178,65 @@ theorem error_surfaces {c : Cfg} (hfx : c.fx = Fix.all) {conc0 : Nat} {s : St}
     · have h1 := hR.e1.mp h
       rcases hR.e7 hm with h2 | h2 <;> simp [h1] at h2
   · rfl
+
+/-- **Errors surface.**  If a task or the source raised, every complete run (that is not paused on
+purpose) has ended with `process()` raising — it neither hangs nor returns normally; and
+`process()` raises only if something failed. -/
+theorem error_surfaces {c : Cfg} (hfx : c.fx = Fix.all) {conc0 : Nat} {s : St}
+    (hr : Reach c conc0 s) (hq : quiescent s = true) (hp : ¬ paused s)
+    (hf : 0 < s.failedItems ∨ s.srcFailed = true) : s.main = .raised :=
+  failure_raised_if_done hfx hr (no_hang hfx hr hq hp) hf
+
+/-- A quiescent paused state with `process()` pending is the idle pause and nothing else: `process()`
+sleeps on the unpause event, there is no worker task left at all (in flight, finished or failed and
+unobserved), no task has ever raised and the source has not raised. -/
+theorem paused_pending_is_idle {c : Cfg} (hfx : c.fx = Fix.all) {conc0 : Nat} {s : St}
+    (hr : Reach c conc0 s) (hq : quiescent s = true) (hp : paused s) (hd : mainDone s = false) :
+    s.main = .waitUnpaused false ∧ s.wt = 0 ∧ s.failedItems = 0 ∧ s.srcFailed = false := by
+  obtain ⟨h, _, hR⟩ := inv_reach hfx hr
+  have e1 := hR.e1
+  obtain_inv h
+  simp only [quiescent, Bool.and_eq_true, Bool.not_eq_true', beq_iff_eq] at hq
+  obtain ⟨⟨⟨hq1, hq2⟩, hq3⟩, hq4⟩ := hq
+  have hb := countRun_zero hq4
+  simp only [paused] at hp
+  destruct_st s
+  simp only [St.qi, St.qsize, St.live, St.wt] at *
+  rcases main with _ | w | w | w | w | _ | _ | _
+  all_goals (try rcases w with _ | _)
+  all_goals (try simp [mainReady, mainDone] at hq2 hd ⊢)
+  all_goals (rcases prod with _ | _ | _ | b | b | _ | _ | _ | _)
+  all_goals (try rcases b with _ | _)
+  all_goals (try simp [prodReady] at hq1)
+  all_goals grind
+
+/-- **A failure always surfaces — paused or not.**  If a task or the source raised, then in EVERY
+reachable state in which nothing can move and nothing is outstanding, `process()` has raised:
+pausing (concurrency set to 0 while items are in flight, one of which then raises) is no exception,
+because `process()` keeps watching the worker tasks that are still in flight and goes to sleep on
+the unpause event only when no worker task is left.  (Safety form: no reachable quiescent state has a
+failed, unobserved worker task while `process()` is pending.) -/
+theorem failure_surfaces_paused_or_not {c : Cfg} (hfx : c.fx = Fix.all) {conc0 : Nat} {s : St}
+    (hr : Reach c conc0 s) (hq : quiescent s = true)
+    (hf : 0 < s.failedItems ∨ s.srcFailed = true) : s.main = .raised := by
+  by_cases hp : paused s
+  · cases hd : mainDone s
+    · obtain ⟨_, _, h3, h4⟩ := paused_pending_is_idle hfx hr hq hp hd
+      rcases hf with h | h
+      · omega
+      · simp [h4] at h
+    · exact failure_raised_if_done hfx hr hd hf
+  · exact error_surfaces hfx hr hq hp hf
+
+/-- no reachable quiescent state with `process()` pending holds a failed worker task that nobody observed -/
+theorem no_unobserved_failed_worker {c : Cfg} (hfx : c.fx = Fix.all) {conc0 : Nat} {s : St}
+    (hr : Reach c conc0 s) (hq : quiescent s = true) (hd : mainDone s = false) : s.failedW = 0 := by
+  rcases Nat.eq_zero_or_pos s.failedW with h | h
+  · exact h
+  · exfalso
+    have hfi : 0 < s.failedItems := Nat.lt_of_lt_of_le h (inv_reach hfx hr).2.2.e6
+    have := failure_surfaces_paused_or_not hfx hr hq (Or.inl hfi)
+    simp [mainDone, this] at hd
 
 theorem raised_only_on_failure {c : Cfg} (hfx : c.fx = Fix.all) {conc0 : Nat} {s : St}
     (hr : Reach c conc0 s) (hm : s.main = .raised) : 0 < s.failedItems ∨ s.srcFailed = true :=
@@ -374,6 +429,15 @@ queued item (the schedule that hangs the unrepaired code, `stop_counterexample`)
 pipeline cancels the producer and returns; item 1 and 2 are never started -/
 example : ∃ s, runActs ⟨3, 0, false, Fix.all⟩ (initSt 1) [main, prod, prod, prod, getw, prod, stop, task 0 true, main, prod, main] = some s ∧
     quiescent s = true ∧ s.main = .returned ∧ s.stopReq = true ∧ startsIn s.log = 1 ∧ s.prod = .cancelled := by
+  decide
+
+open Act in
+/-- non-vacuity of `failure_surfaces_paused_or_not`: 2 workers, items 0 and 1 in flight, `concurrency = 0`,
+item 0 finishes (its worker takes a pill and leaves, `process()` reaps it and keeps waiting for the other
+worker), then item 1's task raises: `process()` raises although the pipeline is paused -/
+example : ∃ s, runActs ⟨3, 0, false, Fix.all⟩ (initSt 2)
+      [main, prod, prod, getw, prod, getw, setConc 0, task 0 true, main, task 1 false, main] = some s ∧
+    s.pstate = .running ∧ s.conc = 0 ∧ s.main = .raised ∧ 0 < s.failedItems := by
   decide
 
 /-- a hang: nothing can move, nothing is outstanding, `process()` has not completed and the
